@@ -972,7 +972,8 @@ func genBuiltinDeferWrapper(n *node, in, out []func(*frame) reflect.Value, fn fu
 			val := make([]reflect.Value, len(in)+1)
 			inTypes := make([]reflect.Type, len(in))
 			for i, v := range in {
-				val[i+1] = v(f)
+				// The arguments of a deferred call are evaluated at the defer statement.
+				val[i+1] = copyValue(v(f))
 				inTypes[i] = val[i+1].Type()
 			}
 			outTypes := make([]reflect.Type, len(out))
@@ -1321,9 +1322,23 @@ func call(n *node) {
 	if n.anc.kind == deferStmt {
 		// Store function call in frame for deferred execution.
 		value = genFunctionWrapper(c0)
+		// The receiver of a deferred method call is evaluated at the defer statement.
+		var rcvr func(*frame) reflect.Value
+		ptrRecv := false
+		if m, ok := c0.val.(*node); ok && c0.recv != nil && c0.recv.node != nil && m.typ != nil && m.typ.recv != nil {
+			rcvr = genValueRecv(c0)
+			ptrRecv = m.typ.recv.cat == ptrT
+		}
 		n.exec = func(f *frame) bltn {
 			val := make([]reflect.Value, len(values)+1)
 			val[0] = value(f)
+			if rcvr != nil {
+				if r := boundReceiver(rcvr(f), ptrRecv); r != nil {
+					nod := *c0
+					nod.recv = r
+					val[0] = genFunctionWrapper(&nod)(f)
+				}
+			}
 			for i, v := range values {
 				// The arguments of a deferred call are evaluated at the defer
 				// statement: keep a copy, not a reference to the frame slot.
@@ -2022,24 +2037,35 @@ func getMethod(n *node) {
 		nod.val = &nod
 		nod.recv = n.recv
 		if rcvr != nil {
-			if v := rcvr(f); v.IsValid() && v.Kind() != reflect.Interface {
-				switch {
-				case ptrRecv && v.Kind() != reflect.Ptr && v.CanAddr():
-					nod.recv = &receiver{val: v.Addr()}
-				case !ptrRecv && v.Kind() != reflect.Ptr:
-					c := reflect.New(v.Type()).Elem()
-					c.Set(v)
-					nod.recv = &receiver{val: c}
-				case !ptrRecv && v.Kind() == reflect.Ptr && !v.IsNil():
-					c := reflect.New(v.Type().Elem()).Elem()
-					c.Set(v.Elem())
-					nod.recv = &receiver{val: c}
-				}
+			if r := boundReceiver(rcvr(f), ptrRecv); r != nil {
+				nod.recv = r
 			}
 		}
 		getFrame(f, l).data[i] = genFuncValue(&nod)(f)
 		return next
 	}
+}
+
+// boundReceiver returns the receiver of a method value or of a deferred method call,
+// as bound at its evaluation: a copy of the value for a value receiver, the address
+// of the variable for a pointer receiver. It returns nil if v is to be used as is.
+func boundReceiver(v reflect.Value, ptrRecv bool) *receiver {
+	if !v.IsValid() || v.Kind() == reflect.Interface {
+		return nil
+	}
+	switch {
+	case ptrRecv && v.Kind() != reflect.Ptr && v.CanAddr():
+		return &receiver{val: v.Addr()}
+	case !ptrRecv && v.Kind() != reflect.Ptr:
+		c := reflect.New(v.Type()).Elem()
+		c.Set(v)
+		return &receiver{val: c}
+	case !ptrRecv && v.Kind() == reflect.Ptr && !v.IsNil():
+		c := reflect.New(v.Type().Elem()).Elem()
+		c.Set(v.Elem())
+		return &receiver{val: c}
+	}
+	return nil
 }
 
 func getMethodByName(n *node) {
